@@ -69,6 +69,10 @@ CHECKS = {
          "For every generated scenario the final build/clean is first run uncrashed to learn its complete sequence of file-system mutations (inside ruler and inside commands); it is then re-run from the same forked state and killed before every single mutation, and inside every write after 1, n/2 and n-1 bytes (every byte for small writes in the thorough tier). At the frozen state the cache must be content-addressed and nothing lost; a fresh build must then succeed and equal the from-scratch result, and a second build must run nothing.",
          "Crash model: completed operations are durable and ordered, rename is atomic, no write-back reordering. Serial schedule (plus sampled random schedules in the thorough tier). Scenarios contain no failing rule.",
          "fault injection enumerated over every mutation prefix of generated scenarios (property-based scenario generation + exhaustive crash points), recovery oracle = C01", "2 C11"),
+ "C18": ("exploration",
+         "Each generated history is executed twice in lockstep from the same start, once as is and once with the saved file-state table deleted before every build, under a clock where every write is distinct and under a coarse clock where all files written in one invocation share an mtime; after every build verdicts and all workspace file bytes must agree (and equal the from-scratch result).",
+         "Self-differential: the table-less run is ruler itself with less information. Time always advances between user actions and invocations.",
+         "property-based testing: differential (with vs without the mtime table) over generated histories under two clock models", "2 C18"),
 }
 
 NOT_YET = {}
